@@ -361,6 +361,9 @@ func verifSpecCL(lowered string) primitive.ConsistencyLevel {
 //   - without configured tokens and with more than one node: nodes are in address order (no later
 //     node's address is smaller than an earlier one's) and node k gets the single token
 //     MinInt64 + k * (floor((2^64-1) / (peers+1)) + 1) - distinct, starting at the minimum token.
+// tokv(step, k) = MinInt64 + k*step, written as a recursion so that the proofs stay in linear arithmetic
+//@ specfn tokv(step, k) = ite(k <= 0, -9223372036854775808, tokv(step, k - 1) + step)
+
 //@ loop proxy.Proxy.buildNodes #1
 //@   invariant err == nil && p.localNode != nil && fresh(p.localNode) && p.localNode.addr == localAddr && p.localNode.dc == localDC && p.localNode.tokens == localTokens
 //@   invariant len(nodes) >= 1 && len(nodes) <= rangeindex + 2 && fresh(nodes) && sliceoff(nodes) == 0 && nodes[0] == p.localNode && (numPeers > 0 ==> localAddr != nil)
@@ -372,10 +375,10 @@ func verifSpecCL(lowered string) primitive.ConsistencyLevel {
 
 //@ loop proxy.Proxy.buildNodes #2
 //@   invariant err == nil && start != nil && fresh(start) && start != &numTokens && (&numTokens).$v == 18446744073709551615 / (numPeers + 1) + 1
-//@   invariant start.$v == -9223372036854775808 + (rangeindex + 1) * (&numTokens).$v
+//@   invariant start.$v == tokv((&numTokens).$v, rangeindex + 1)
 //@   invariant forall(k, 0, rangeindex + 1, len(nodes[k].tokens) == 1)
 //@   invariant forall(k, 0, len(nodes), below(nodes[k].tokens))
-//@   invariant forall(k, 0, rangeindex + 1, ufInt("big.parse", nodes[k].tokens[0], 10) == -9223372036854775808 + k * (&numTokens).$v)
+//@   invariant forall(k, 0, rangeindex + 1, ufInt("big.parse", nodes[k].tokens[0], 10) == tokv((&numTokens).$v, k))
 
 //@ func proxy.Proxy.buildNodes [C10]
 //@   let step = 18446744073709551615 / (len(p.config.Peers) + 1) + 1
@@ -389,7 +392,7 @@ func verifSpecCL(lowered string) primitive.ConsistencyLevel {
 //@   ensures size: err == nil ==> 1 <= len(p.nodes) && len(p.nodes) <= len(p.config.Peers) + 1
 //@   ensures local-dc: err == nil ==> p.localNode.dc == ite(len(p.config.DC) == 0, p.cluster.Info.LocalDC, p.config.DC)
 //@   ensures address-order: err == nil && len(p.config.Tokens) == 0 && len(p.nodes) > 1 ==> forall(i, 0, len(p.nodes), forall(j, i + 1, len(p.nodes), !(compareIPAddr(p.nodes[j].addr, p.nodes[i].addr) < 0)))
-//@   ensures tokens-from-minimum: err == nil && len(p.config.Tokens) == 0 && len(p.nodes) > 1 ==> forall(k, 0, len(p.nodes), len(p.nodes[k].tokens) == 1 && ufInt("big.parse", p.nodes[k].tokens[0], 10) == -9223372036854775808 + k * step)
+//@   ensures tokens-from-minimum: err == nil && len(p.config.Tokens) == 0 && len(p.nodes) > 1 ==> forall(k, 0, len(p.nodes), len(p.nodes[k].tokens) == 1 && ufInt("big.parse", p.nodes[k].tokens[0], 10) == tokv(step, k))
 //@   ensures single-node-token: err == nil && len(p.config.Tokens) == 0 && len(p.nodes) == 1 ==> len(p.localNode.tokens) == 1 && p.localNode.tokens[0] == strconv.FormatInt(-9223372036854775808, 10)
 //@   ensures configured-tokens: err == nil && len(p.config.Tokens) > 0 ==> p.localNode.tokens == p.config.Tokens && forall(k, 0, len(p.nodes), len(p.nodes[k].tokens) > 0)
 //@   modifies p.localNode, p.nodes, p.$localIdx, $sortTo, $sortFrom
